@@ -804,6 +804,22 @@ Qed.
 
 Definition plain (o : op) : bool := match o with CreateEdgeId _ _ _ _ => false | _ => true end.
 
+Lemma fold_max_ge l : forall a x, In x l -> x <= fold_left N.max l a.
+Proof.
+  induction l as [|y l IH]; intros a x Hx; [destruct Hx|]. cbn [fold_left]. destruct Hx as [->|Hx].
+  - clear IH. revert a. induction l as [|z l IH2]; intros a; cbn [fold_left]; [lia|].
+    specialize (IH2 (N.max a z)). pose proof (N.le_max_l (N.max a x) z).
+    assert (forall b c, b <= c -> fold_left N.max l b <= fold_left N.max l c) as Hmono.
+    { clear. induction l as [|w l IH]; intros b c Hbc; cbn [fold_left]; [assumption|]. apply IH. lia. }
+    etransitivity; [apply IH2|]. apply Hmono. lia.
+  - apply IH. assumption.
+Qed.
+Lemma aget_In_fst {V} (l : list (N * V)) k v : aget l k = Some v -> In k (map fst l).
+Proof.
+  induction l as [|[k0 v0] l IH]; cbn; [discriminate|]. destruct (N.eqb_spec k0 k) as [->|]; [left; reflexivity|].
+  intros H. right. apply IH. assumption.
+Qed.
+
 Lemma create_edge_op_good s f t d : Good s -> Good (fst (create_edge_op s f t d)).
 Proof.
   intros Hg. unfold create_edge_op. destruct (node_exists s f) eqn:Hf; cbn [negb]; [|assumption].
@@ -823,7 +839,7 @@ Qed.
 
 Lemma apply_good s o : Good s -> plain o = true -> Good (fst (apply s o)).
 Proof.
-  intros Hg Hp. destruct o as [|f t d|e f t d|e|n|n|e|l|]; try discriminate Hp.
+  intros Hg Hp. destruct o as [|f t d|e f t d|e|n|n|e|l| |]; try discriminate Hp.
   - apply create_node_good. assumption.
   - cbn [apply]. apply create_edge_op_good. assumption.
   - cbn [apply]. destruct (get_edge s e) as [r|] eqn:He; cbn [fst]; [|assumption].
@@ -843,6 +859,11 @@ Proof.
   - cbn [apply]. destruct (get_edge s e); assumption.
   - cbn [apply]. unfold batch_create. destruct (batch_missing s l); cbn [fst]; [assumption|].
     apply batch_fold_good. assumption.
+  - (* Reopen *)
+    cbn [apply fst]. destruct Hg as [[H1 H2 H3 H4 H5] [Hfe Hfn]]. split; [constructor; assumption|split].
+    + intros e r He. cbn [ecount]. apply fold_max_ge. unfold get_edge in He. cbn [sedges] in He.
+      apply aget_In_fst in He. assumption.
+    + intros m Hm. cbn [ncount]. apply fold_max_ge. assumption.
   - cbn [apply fst]. assumption.
 Qed.
 
